@@ -54,18 +54,26 @@ pub fn scenario(r: &mut Report, p: &Params) {
     let mut slots: Vec<Slot> = vec![];
     let mut boot = SocketAddrV4::new(Ipv4Addr::UNSPECIFIED, 0);
     for i in 0..total {
-        let (ip, public_ip) = plan_ip(plans[p.plan % 4], i, &mut rng);
+        let (mut ip, mut public_ip) = plan_ip(plans[p.plan % 4], i, &mut rng);
+        if p.plan == 7 {
+            // BEP42 ids from the start, on hosts whose addresses differ only in bits the BEP42 digest ignores
+            // (mask 0x030f3fff): ids of different hosts then share one of only eight 21-bit prefixes
+            ip = Ipv4Addr::new(20 + 4 * (i % 24) as u8, 1 + 16 * (i / 24 % 8) as u8, 1 + 64 * (i / 192 % 3) as u8, 7);
+            public_ip = Some(ip);
+        }
         let server = i < p.servers;
         let bs: Vec<SocketAddrV4> = if i == 0 { vec![] } else { vec![boot] };
         let mut spec = if server { NodeSpec::server(ip, &bs) } else { NodeSpec::client(ip, &bs) };
         spec.public_ip = public_ip;
+        // (up since it was spawned: the answers to its bootstrap lookup are answers to its requests)
+        let t_spawn = w.now();
         let n = w.spawn(spec).expect("spawn");
         if i == 0 {
             boot = n.addr;
         } else {
             w.block_on(n.adht.bootstrapped(), 120 * SEC);
         }
-        slots.push(Slot { addr: n.addr, node: Some(n), ip, public_ip, server, crashed_at: None, restarted_at: None, id_before_restart: None, started_at: w.now(), empty_since: None });
+        slots.push(Slot { addr: n.addr, node: Some(n), ip, public_ip, server, crashed_at: None, restarted_at: None, id_before_restart: None, started_at: t_spawn, empty_since: None });
     }
     let t0 = w.now();
     let end = t0 + p.hours_x10 * 6 * MIN;
@@ -216,6 +224,9 @@ pub fn scenario(r: &mut Report, p: &Params) {
                 continue;
             };
             let tb: HashSet<SocketAddrV4> = tb.iter().filter_map(|a| a.parse().ok()).collect();
+            if std::env::var("MLV_DEBUG").is_ok() && !big && k < 2 {
+                eprintln!("t={}min node {} to_bootstrap={} answered-by={}", (s_now - t0) / MIN, x, tb.len(), last_answer.iter().filter(|((a, _), t)| *a == x && s_now - **t <= 14 * MIN).count());
+            }
             // (a) recently answering live peers are present
             for ((asker, p_addr), t) in last_answer.iter().filter(|((a, _), _)| *a == x) {
                 let _ = asker;
@@ -746,7 +757,7 @@ pub fn run(a: &Args) -> Report {
             seed: rng.u64(),
             servers: *rng.pick(&[2usize, 4, 5, 6, 8, 10, 14, 20]),
             clients: *rng.pick(&[0usize, 0, 1, 3]),
-            plan: rng.usize(4),
+            plan: *rng.pick(&[0usize, 1, 2, 3, 7]),
             hours_x10: if a.quick() { *rng.pick(&[8u64, 10, 12]) } else { *rng.pick(&[20u64, 30, 40, 60]) },
             churn: rng.usize(3),
             api_lookups: rng.bool(),
